@@ -274,7 +274,7 @@ def run_case(case, rec):
 
 
 # ======================================================================= byte-level fuzzing (thorough tier)
-def _classify_lines(text, fmt):
+def _classify_lines(text, fmt, directed=False):
     """Independent reading of the statement: returns (clean_rows, in_domain, type_error_expected).
     Comment marker '#', whitespace delimiter.  Inputs the statement says nothing about (5+ columns in a
     snapshot file, e <= t, a '-' without an earlier '+', an op other than + / -) are out of domain."""
@@ -314,9 +314,10 @@ def _classify_lines(text, fmt):
                 break
             if abs(t) > 10 ** 4:
                 return None, False, False
-            if f[2] == '-' and frozenset((f[0], f[1])) not in seen_plus:
+            pk = (f[0], f[1]) if directed else frozenset((f[0], f[1]))
+            if f[2] == '-' and pk not in seen_plus:
                 return None, False, False
-            seen_plus.add(frozenset((f[0], f[1])))
+            seen_plus.add(pk)
             rows.append((f[0], f[1], f[2], t))
     return rows, True, type_err
 
@@ -332,7 +333,7 @@ def fuzz_oracle(data):
     text = data[2:].decode('latin-1')
     if '\r' in text or '\x0b' in text or '\x0c' in text or '\x1c' in text or '\x1d' in text or '\x1e' in text or '\x85' in text:
         return []                       # exotic line/field separators: str.split() and the statement are silent
-    rows, in_domain, type_err = _classify_lines(text, fmt)
+    rows, in_domain, type_err = _classify_lines(text, fmt, directed)
     if not in_domain:
         return []
     lines = [ln + '\n' for ln in text.split('\n')]
